@@ -9,6 +9,11 @@
                     ed25519-not-zip215.
    secp cases       the model is libsecp256k1's rule set behind gossamer's wrappers, which is
                     also the reference: prop_ok = model_eq.
+   host cases       hhash like hash; hed like ed; hecdsa: model_eq against the model of
+                    ext_crypto_ecdsa_verify_version_2 (64 signature bytes, low-S ECDSA verify),
+                    prop_ok against Substrate's verdict (recover from the 65 bytes and compare);
+                    disagreements inside [host_ecdsa_guard] are the known finding
+                    ecdsa-verify-drops-recovery-id; hrec/hrecc: the key inside Result::Ok.
 
    The signature references cost about a second per case (256-bit arithmetic on Coq's binary
    integers), so the cases are distributed over worker processes (this executable re-invoked
@@ -89,6 +94,34 @@ let check inp obs =
                           (if hexlen sigh <> 65 then ",srecover-bad-length" else "")) ~model:m ~obs in
     if (not v.prop_ok) && obs = "panic" && hexlen sigh < 65 then
       { v with detail = "RecoverPublicKeyCompressed panics on a signature shorter than 65 bytes; " ^ v.detail } else v
+  | ["hed"; pkh; msgh; sigh] ->
+    let pk = bytes_of_hex pkh and msg = bytes_of_hex msgh and sg = bytes_of_hex sigh in
+    let (g, z) = host_ed25519_case pk msg sg in
+    let model = if g then "1" else "0" in
+    let prop = ((obs = "1") = z) in
+    let finding = if (not prop) && zip215_guard pk sg then "ed25519-not-zip215" else "-" in
+    { prop_ok = prop; model_eq = (model = obs); nontrivial = true; finding;
+      tags = "host,hed-" ^ model ^ (if z then ",hed-zip215-accept" else ",hed-zip215-reject");
+      detail = if prop && model = obs then "" else
+          Printf.sprintf "host=%s model-of-go=%s zip215=%s" obs model (if z then "accept" else "reject") }
+  | ["hecdsa"; pkh; msgh; sigh] ->
+    let pk = bytes_of_hex pkh and msg = bytes_of_hex msgh and sg = bytes_of_hex sigh in
+    let g = host_ecdsa_verify pk msg sg in
+    let z = substrate_ecdsa_verify pk msg sg in
+    let model = if g then "1" else "0" in
+    let prop = ((obs = "1") = z) in
+    let finding = if (not prop) && host_ecdsa_guard pk msg sg then "ecdsa-verify-drops-recovery-id" else "-" in
+    { prop_ok = prop; model_eq = (model = obs); nontrivial = true; finding;
+      tags = "host,hecdsa-" ^ model ^ (if z then ",hecdsa-substrate-accept" else ",hecdsa-substrate-reject")
+             ^ (if g <> z then ",hecdsa-differs-from-substrate" else "");
+      detail = if prop && model = obs then "" else
+          Printf.sprintf "host=%s model-of-go=%s substrate=%s" obs model (if z then "accept" else "reject") }
+  | ["hrec"; msgh; sigh] ->
+    let m = (match host_recover (bytes_of_hex msgh) (bytes_of_hex sigh) with Some k -> hex_of_bytes k | None -> "err") in
+    simple ~tags:("host,hrec-" ^ (if m = "err" then "err" else "key")) ~model:m ~obs
+  | ["hrecc"; msgh; sigh] ->
+    let m = (match host_recover_compressed (bytes_of_hex msgh) (bytes_of_hex sigh) with Some k -> hex_of_bytes k | None -> "err") in
+    simple ~tags:("host,hrecc-" ^ (if m = "err" then "err" else "key")) ~model:m ~obs
   | _ -> fail "C29: bad input %s" inp
 
 (* ---- parallel front end *)
@@ -99,7 +132,7 @@ let read_lines ic =
 
 let cost line =
   match String.split_on_char '\t' line with
-  | [_; inp; _] -> if String.length inp > 2 && (inp.[0] = 'e' || inp.[0] = 's') then 60 else 1
+  | [_; inp; _] -> if String.length inp > 6 && (inp.[0] = 'e' || inp.[0] = 's' || (inp.[0] = 'h' && inp.[1] <> 'h' && String.sub inp 0 5 <> "hash ")) then 60 else 1
   | _ -> 1
 
 let () =
@@ -107,7 +140,7 @@ let () =
   else begin
     let lines = List.filter (fun l -> l <> "") (read_lines stdin) in
     let total = List.fold_left (fun a l -> a + cost l) 0 lines in
-    let want = (try int_of_string (Sys.getenv "VERIF_WORKERS") with _ -> 6) in
+    let want = (try int_of_string (Sys.getenv "VERIF_WORKERS") with _ -> 8) in
     let k = max 1 (min want (total / 40)) in
     if k = 1 then begin
       (* small job: in-process *)
